@@ -91,6 +91,30 @@ func TestC01_ExactlyOnce(t *testing.T) {
 				}
 				w.cancelObj(o, "top")
 			},
+			"cancelDeep": func(rt *rapid.T) {
+				// Cancel from a callback that sits on 32 nested inline completions (the dispatch limit), followed in the same
+				// callback by what teardown and retry code does next: Close, or a new operation of the same kind
+				o := pickObj("o")
+				if o.st == nil || o.closed {
+					rt.Skip("no Cancel")
+				}
+				then := rapid.SampledFrom([]string{"nothing", "close", "again"}).Draw(rt, "then")
+				var again *wop
+				for _, p := range []*wop{o.rd, o.wr} {
+					if p != nil && p.deferred {
+						again = p
+					}
+				}
+				w.atDepth(32, func() {
+					w.cancelObj(o, "deep")
+					switch {
+					case then == "close":
+						w.closeObj(o, "deep")
+					case then == "again" && again != nil && w.canStart(o, again.kind):
+						w.startOp(o, again.kind, len(again.buf), nil, "deep")
+					}
+				})
+			},
 			"close": func(rt *rapid.T) {
 				if rapid.IntRange(0, 3).Draw(rt, "really") != 0 {
 					rt.Skip("rarely")
